@@ -171,6 +171,36 @@ impl<B: OrderedBackend> ranger::Store<SignedEntry> for Adapter<B> {
         self.0.get_first()
     }
 
+    // The reconciliation storage trait has a few extra required methods in test builds of the
+    // crate; the adapter is never used by the crate's own tests.
+    #[cfg(test)]
+    fn get(&mut self, _key: &RecordIdentifier) -> anyhow::Result<Option<SignedEntry>> {
+        unimplemented!("verification adapter")
+    }
+    #[cfg(test)]
+    fn len(&mut self) -> anyhow::Result<usize> {
+        unimplemented!("verification adapter")
+    }
+    #[cfg(test)]
+    fn is_empty(&mut self) -> anyhow::Result<bool> {
+        unimplemented!("verification adapter")
+    }
+    #[cfg(test)]
+    fn prefixed_by(
+        &mut self,
+        _prefix: &RecordIdentifier,
+    ) -> anyhow::Result<Self::RangeIterator<'_>> {
+        unimplemented!("verification adapter")
+    }
+    #[cfg(test)]
+    fn all(&mut self) -> anyhow::Result<Self::RangeIterator<'_>> {
+        unimplemented!("verification adapter")
+    }
+    #[cfg(test)]
+    fn entry_remove(&mut self, _key: &RecordIdentifier) -> anyhow::Result<Option<SignedEntry>> {
+        unimplemented!("verification adapter")
+    }
+
     fn get_fingerprint(&mut self, range: &Range<RecordIdentifier>) -> anyhow::Result<Fingerprint> {
         Ok(Fingerprint(self.0.get_fingerprint(range.x(), range.y())?))
     }
